@@ -498,6 +498,14 @@ func countAt(raw json.RawMessage, pattern string) int {
 type Restarting struct {
 	Driver
 	Modules []string
+	// Boundary also offers the restart where it really happens, between two blocks: the current block is finished,
+	// the genesis exported, and InitGenesis runs under the header height of the *next* block (the new chain's initial
+	// height), followed by that block's begin-block. The step is the inner driver's own block operation with the
+	// restart slipped in between its end-block and begin-block halves, so the inner oracles judge the block as usual.
+	Boundary bool
+	// Skip > 0 additionally offers a boundary restart whose new chain starts Skip heights later (an export imported
+	// with a larger initial height): objects whose due height falls into the gap are overdue on the new chain.
+	Skip int64
 }
 
 // WithRestart wraps a driver constructor.
@@ -508,13 +516,42 @@ func WithRestart(mk func() (*Env, Driver), modules ...string) func() (*Env, Driv
 	}
 }
 
+// WithBoundaryRestart is WithRestart plus the restart between blocks (and, with skip > 0, at a later initial height).
+func WithBoundaryRestart(mk func() (*Env, Driver), skip int64, modules ...string) func() (*Env, Driver) {
+	return func() (*Env, Driver) {
+		e, d := mk()
+		return e, &Restarting{Driver: d, Modules: modules, Boundary: true, Skip: skip}
+	}
+}
+
 type restartOp struct{}
 
+type boundaryRestartOp struct {
+	inner Op
+	skip  int64
+}
+
 func (r *Restarting) Enabled(e *Env, s *State) []Op {
-	return append(r.Driver.Enabled(e, s), Op{Name: "restart-from-genesis", Data: restartOp{}})
+	inner := r.Driver.Enabled(e, s)
+	ops := append(inner, Op{Name: "restart-from-genesis", Data: restartOp{}})
+	if r.Boundary {
+		for _, op := range inner {
+			if strings.HasPrefix(op.Name, "block") {
+				ops = append(ops, Op{Name: "restart-between-blocks+" + op.Name, Data: boundaryRestartOp{inner: op}})
+				if r.Skip > 0 {
+					ops = append(ops, Op{Name: fmt.Sprintf("restart-between-blocks(initial height +%d)+%s", r.Skip, op.Name), Data: boundaryRestartOp{inner: op, skip: r.Skip}})
+				}
+				break
+			}
+		}
+	}
+	return ops
 }
 
 func (r *Restarting) Apply(e *Env, s *State, op Op) []Finding {
+	if bop, ok := op.Data.(boundaryRestartOp); ok {
+		return r.applyBoundary(e, s, bop)
+	}
 	if _, ok := op.Data.(restartOp); !ok {
 		return r.Driver.Apply(e, s, op)
 	}
@@ -532,6 +569,48 @@ func (r *Restarting) Apply(e *Env, s *State, op Op) []Finding {
 		ra.Restarted(e, s)
 	}
 	return nil
+}
+
+// reimportAt re-imports the modules' own export into ctx under the header height `height`.
+func (r *Restarting) reimportAt(e *Env, ctx sdk.Context, height int64) error {
+	h := ctx.BlockHeader()
+	h.Height = height
+	ictx := ctx.WithBlockHeader(h)
+	for _, m := range r.Modules {
+		if err := ReimportModule(e, ictx, m); err != nil {
+			return err
+		}
+	}
+	return nil
+}
+
+func (r *Restarting) applyBoundary(e *Env, s *State, bop boundaryRestartOp) []Finding {
+	// dry run on a throw-away branch: a module that rejects its own export makes the operation a no-op
+	probe, _ := s.Ctx.CacheContext()
+	saved := e.Trace
+	e.Trace = nil
+	e.EndBlockOnly(probe)
+	e.Trace = saved
+	if err := r.reimportAt(e, probe, probe.BlockHeight()+1+bop.skip); err != nil {
+		s.Last = "err"
+		return nil
+	}
+	if ra, ok := r.Driver.(RestartAware); ok {
+		ra.Restarted(e, s)
+	}
+	e.BetweenBlocks = func(ctx sdk.Context) sdk.Context {
+		if err := r.reimportAt(e, ctx, ctx.BlockHeight()+1+bop.skip); err != nil {
+			panic("boundary restart: import failed after a successful dry run: " + err.Error())
+		}
+		if bop.skip > 0 {
+			h := ctx.BlockHeader()
+			h.Height += bop.skip
+			ctx = ctx.WithBlockHeader(h)
+		}
+		return ctx
+	}
+	defer func() { e.BetweenBlocks = nil }()
+	return r.Driver.Apply(e, s, bop.inner)
 }
 
 // RestartAware is implemented by drivers whose module deliberately leaves something out of its export (closed
